@@ -29,7 +29,7 @@ if os.path.realpath(REPO) != "/repo":
     TARGET = os.path.join(BUILD, "harness-target-" + _tag)
 DRIVER = os.path.join(LEAN, ".lake", "build", "bin", "tdmodel")
 ALLOWED_AXIOMS = {"propext", "Classical.choice", "Quot.sound"}
-MAX_DEATHS = 6
+MAX_DEATHS = 4
 
 sys.path.insert(0, VERIF)
 import gen  # noqa: E402
@@ -207,7 +207,7 @@ def run_harness(binary, cases, tag):
                 f.write("\n".join(c) + "\n")
         nlines = sum(len(c) for c in cases[start:])
         try:
-            r = subprocess.run([binary, path], capture_output=True, text=True, timeout=max(15, nlines / 5000))
+            r = subprocess.run([binary, path], capture_output=True, text=True, timeout=max(45, nlines / 1000))
             out, died = r.stdout, (r.returncode != 0)
             kind = "abort"
         except subprocess.TimeoutExpired as e:
